@@ -165,6 +165,41 @@ def main():
     r2 = out(o, 1)
     if r2 != ("ok", "flaky"):
         fail("hook_exception_during_resolution_then_retry", first=r1, retry=r2)
+    # 3b. the same with a plain abstract class whose __subclasshook__ fails once (any exception type)
+    import abc
+
+    for exc_type in (RuntimeError, ImportError, TypeError):
+        st2 = {"boom": True}
+
+        class Arrayish(abc.ABC):
+            @classmethod
+            def __subclasshook__(cls, C):
+                if st2["boom"]:
+                    st2["boom"] = False
+                    raise exc_type("hook failed once")
+                return hasattr(C, "shape") or NotImplemented
+
+        class Vec:
+            shape = (3,)
+
+        o = Ovld(name="k2")
+
+        def ka(x: Arrayish):
+            return "array"
+
+        def ko2(x: object):
+            return "object"
+
+        o.register(ka)
+        o.register(ko2)
+        n += 2
+        r1 = out(o, Vec())
+        r2 = out(o, Vec())
+        # the first call may fail (the hook's exception) or already answer correctly; it must not answer WRONGLY, and the
+        # retry must behave according to the complete method set
+        if (r1[0] == "ok" and r1 != ("ok", "array")) or r2 != ("ok", "array"):
+            # a TypeError from the hook is indistinguishable, for subclasscheck, from "not a class": open finding F-hooktypeerror
+            fail(("known_hooktypeerror." if exc_type is TypeError else "") + "class_hook_exception_during_resolution_then_retry", exception=exc_type.__name__, first=r1, retry=r2)
     # 4. linked family, everyone in use; an invalid method arrives on an ancestor.  No OTHER member may be left serving
     #    a partially filled table (the ancestor's own state is scenario 2 / finding F-halfbuilt).
     for depth in (1, 2):
